@@ -199,7 +199,7 @@ def corpus_cases():
         # F7: a static tuple headed by a callable is executed
         dict(base, tasks=[[0, False, [["call", 1, "a"]]], [1, False, [["list", S("x"), ["call", 2, "b"]]]]],
              ops=[["newtasks", 0, [0]], ["add", 0, 1, [0]]]),
-        # insert_workflow N:M refusal leaves the builder composed
+        # insert_workflow N:M refusal must leave the builder unchanged (was composed before fix f697869)
         dict(base, tasks=[[i, False, []] for i in range(5)],
              ops=[["newtasks", 0, [0, 1]], ["newtasks", 1, [2, 3, 4]], ["insert", 0, 1, None]], close=True),
         # map-reduce of tests/workflows/test_execute.py
